@@ -44,8 +44,8 @@ var c03Kinds = []string{"correctV", "noV", "wrongV", "crossV", "short42", "long1
 
 // extended alphabet: the same attempts with unusual grant_type spellings (a token request is a
 // token request however its grant_type list is written)
-var c03KindsExt = append(append([]string(nil), c03Kinds...), "noV/gt=extra", "noV/gt=dup", "wrongV/gt=extra", "noV/gt=case")
-var c03Bindings = []string{"S256", "plain", "omitted", "none", "plain-short", "plain-bad", "unknown-method"}
+var c03KindsExt = append(append([]string(nil), c03Kinds...), "noV/gt=extra", "noV/gt=dup", "wrongV/gt=extra", "noV/gt=case", "noV/fault", "wrongV/fault")
+var c03Bindings = []string{"S256", "plain", "omitted", "none", "plain-short", "plain-bad", "unknown-method", "s256-lower", "Plain-caps"}
 
 // binding -> (challenge, method param, effective method)
 func c03Binding(b string) (challenge, method, eff string) {
@@ -62,6 +62,10 @@ func c03Binding(b string) (challenge, method, eff string) {
 		return strings.Repeat("x", 42) + "!", "plain", "plain"
 	case "unknown-method":
 		return s256(pkceV0), "S512", "?"
+	case "s256-lower":
+		return s256(pkceV0), "s256", "?"
+	case "Plain-caps":
+		return s256(pkceV0), "PLAIN", "?"
 	}
 	return "", "", ""
 }
@@ -76,6 +80,9 @@ func c03GrantType(kind string) (string, string) {
 		case "case":
 			return kind[:i], "Authorization_Code"
 		}
+	}
+	if strings.HasSuffix(kind, "/fault") {
+		return strings.TrimSuffix(kind, "/fault"), "authorization_code"
 	}
 	return kind, "authorization_code"
 }
@@ -187,7 +194,7 @@ func c03RunSeq(c c03Case, res *WRes) (outcomes []string) {
 	if (c.Binding == "plain" || c.Binding == "omitted" || c.Binding == "plain-short" || c.Binding == "plain-bad") && !c.Plain {
 		res.violate(mk("C03/authorize-accepted-plain-while-disabled/bind="+c.Binding, "authorization endpoint issued a code for a plain/omitted code_challenge_method although plain is not enabled", "refusal", ao, 0))
 	}
-	if c.Binding == "unknown-method" {
+	if c.Binding == "unknown-method" || c.Binding == "s256-lower" || c.Binding == "Plain-caps" {
 		res.violate(mk("C03/authorize-accepted-unknown-method", "authorization endpoint issued a code for an unsupported code_challenge_method", "refusal", ao, 0))
 	}
 	if c.Binding == "none" && (c.Enforce == "all" || (c.Enforce == "public" && c.Client == "P")) {
@@ -202,7 +209,17 @@ func c03RunSeq(c c03Case, res *WRes) (outcomes []string) {
 		if sent {
 			form.Set("code_verifier", v)
 		}
+		if strings.HasSuffix(kind, "/fault") {
+			// the PKCE lookup fails with a transient storage error during this one request
+			w.Store.Before = func(call *Call) error {
+				if call.Name == "GetPKCERequestSession" {
+					return fmt.Errorf("storage: connection reset")
+				}
+				return nil
+			}
+		}
 		o := w.Token(form, w.AuthFor(c.Client))
+		w.Store.Before = nil
 		res.Trans++
 		issued := o.Str("access_token") != "" || o.Str("refresh_token") != "" || o.Str("id_token") != ""
 		allowed, why := c03RefAllowed(c, v, sent)
